@@ -208,7 +208,7 @@ def compare(run, label, M, exe, cases, model, cid, args="", what="serial"):
 def check(run, replay=None):
     tier, seed = run.tier, run.seed
     rng = random.Random(seed * 7919 + 2)
-    C.standard_coq_phase(run, CID)
+    C.standard_coq_phase(run, CID, gens=("jacobian",))
     ok, msg = C.ensure_ocaml()
     if not ok:
         run.finding("build:ocaml", "broken-obligation", msg, {})
